@@ -84,6 +84,12 @@ class Ctx:
                     break
             if scope is None or not bad or self.pid in scope:
                 self.problems.append(('translator', out.strip()))
+        # shapes of BumpBox<[T]>::split_at / split_first / split_last / merge (C16)
+        rc7, out7, _ = sh([sys.executable, os.path.join(VERIF, 'tools', 'partsites.py'), REPO, os.path.join(COQ, 'gen')])
+        if self.pid == 'C16':
+            self.say('translator:', out7.strip())
+            if rc7 != 0:
+                self.problems.append(('translator', out7.strip()))
         # shapes of bump_pool.rs the pool model relies on (C19)
         rc6, out6, _ = sh([sys.executable, os.path.join(VERIF, 'tools', 'poolsites.py'), REPO, os.path.join(COQ, 'gen')])
         if self.pid == 'C19':
